@@ -745,7 +745,7 @@ impl LanguageHooks for StdHooks06 {
         (dest_offset / 20) as u32
     }
     fn decode_label(&self, _cur: raw::BytePos, bits: raw::RawDwordBits) -> raw::BytePos {
-        (bits * 20) as u64
+        bits as u64 * 20
     }
 
     fn instr_format(&self) -> &dyn InstrFormat { self }
